@@ -39,7 +39,11 @@ class Controller:
             except BaseException as e:
                 return (False, e)
         r, w = os.pipe()
-        sys.stdout.flush(); sys.stderr.flush()
+        for stream in (sys.stdout, sys.stderr):      # as multiprocessing.util._flush_std_streams does
+            try:
+                stream.flush()
+            except (AttributeError, ValueError):
+                pass
         pid = os.fork()
         if pid == 0:
             os.close(r)
